@@ -334,9 +334,15 @@ def _run_unit_body(unit, tier, acc, one):
                 lb, hb, nb = toks[b]
                 if ha == hb:
                     continue
-                d2 = apply_tokens(data, max(ha, hb),
-                                  na if ha > hb else nb)
-                d2 = apply_tokens(d2, min(ha, hb), na if ha < hb else nb)
+                # later header first, with the spans of the ORIGINAL file,
+                # so the earlier header's offsets stay valid
+                spans = header_spans(data)
+                d2 = data
+                for hx, nx in sorted([(ha, na), (hb, nb)], reverse=True):
+                    pos, eol, plen, optlist = spans[hx]
+                    hdr = d2[pos:pos + plen] + ((b' ' + b', '.join(nx))
+                                                if nx else b'')
+                    d2 = d2[:pos] + hdr + d2[eol:]
                 one(d2, {'kind': 'data', 'data': to_jsonable(d2)},
                     'file %s %s@%d + %s@%d' % (name, la, ha, lb, hb))
     elif unit[0] == 'lines':
